@@ -1409,11 +1409,12 @@ func (vc *VC) checkFrame(fin *State, f *Frame, ct *Contract, pos token.Pos) {
 		if srt.Kind == KArray && srt.Key == sortInt && vc.stripFreshStores(fh.S) == vc.stripFreshStores(sh.S) {
 			continue
 		}
-		if eh, ok := e.heaps[name]; ok && eh.S != sh.S && !vc.thorough {
-			// the modifies clause names a location in this heap: the quick tier stops at heap granularity
-			// ("writes only heaps its modifies clause mentions"); the thorough tier compares location by location
+		if eh, ok := e.heaps[name]; ok && eh.S != sh.S {
+			// the modifies clause names a location in this heap: the comparison stops at heap granularity
+			// ("writes only heaps its modifies clause mentions"). Comparing location by location needs loop havocs
+			// that frame every write (a map reached through a field is still havocked as a whole): not claimed.
 			continue
-		} else if !ok && !vc.thorough {
+		} else if !ok {
 			if _, touched := s.heaps[name]; touched && sh.S != name+"_0" {
 				continue
 			}
@@ -1555,6 +1556,7 @@ func (vc *VC) doSelect(st *State, f *Frame, x *ssa.Select) []*State {
 		if idx >= 0 && x.States[idx].Dir == types.SendOnly {
 			sc := x.States[idx]
 			vc.chanInvCheck(s, fr, sc.Chan, vc.tv(s, fr, sc.Chan), vc.value(s, fr, sc.Send), x.Pos())
+			s.events = append(s.events, Event{Kind: "send", Args: []Value{vc.tv(s, fr, sc.Chan), vc.value(s, fr, sc.Send)}})
 		}
 		fr.regs[x] = tup
 		fr.idx++
@@ -1962,7 +1964,7 @@ func loggedCallee(fn *ssa.Function, name string) ([]types.Type, bool) {
 // localOnlyClause: postconditions phrased over the ghost logs of the function's own go statements
 // and calls are checked on the body but cannot be used at call sites.
 func localOnlyClause(cl *Clause) bool {
-	for _, w := range []string{"spawncount(", "spawnarg(", "callcount(", "callarg(", "final("} {
+	for _, w := range []string{"spawncount(", "spawnarg(", "callcount(", "callarg(", "final(", "sent("} {
 		if strings.Contains(cl.Src, w) {
 			return true
 		}
